@@ -224,7 +224,14 @@ def job_history(gen, dim, seq, tier):
         extra = {"mode_no": state["mode_no"]}
         fresh_srf, _ = mk(fkw, state["seed"], period=state["period"], **extra) if gen == "Fourier" else mk(fkw, state["seed"], **extra)
         fresh = fresh_srf(pos)
-        return flat(final), flat(fresh)
+        # generator state behind the field (cheap, localising obligations): amplitudes, wave vectors / modes, weights
+        state = []
+        for attr in ("_z_1", "_z_2", "_cov_sample", "_modes", "_spectrum_factor", "_delta_k"):
+            a, b = getattr(srf.generator, attr, None), getattr(fresh_srf.generator, attr, None)
+            if a is None and b is None:
+                continue
+            state.append((attr, None if a is None else rnp.array(a, dtype=object).ravel().copy(), None if b is None else rnp.array(b, dtype=object).ravel().copy()))
+        return flat(final), flat(fresh), state
 
     paths = explore(run, max_paths=32)
     n_ok = 0
@@ -234,8 +241,14 @@ def job_history(gen, dim, seq, tier):
             out.append(rec(base, "error", detail=f"{p.exc!r} {p.tb}"))
             continue
         n_ok += 1
-        final, fresh = p.out
+        final, fresh, state = p.out
         C = p.conds + list(rngstub.FACTS)
+        for attr, a, b in state:
+            if a is None or b is None or a.shape != b.shape:
+                out.append(rec(f"{base}/generator state {attr}: shape", "sat", witness={}, replay={"kind": "history", "inputs": rb[1]({})}, detail=f"{None if a is None else a.shape} vs {None if b is None else b.shape}"))
+                continue
+            for i in range(a.size):
+                out.append(prove(f"{base}/generator state {attr}[{i}] == freshly constructed generator", C, core.eq(a[i], b[i]), T, witness_vars=wv, replay=rb, pairwise=False))
         for i, (a, b) in enumerate(zip(final, fresh)):
             out.append(prove(f"{base}/value[{i}] == freshly constructed generator", C, core.eq(a, b), T, witness_vars=wv, replay=rb, pairwise=False))
         if len(final) != len(fresh):
